@@ -106,6 +106,56 @@ def build_repo(rng, root, ncommits):
     return m
 
 
+def build_unequal_merge(rng, root, side_len, main_len, merge_into_side):
+    """A --- B.. ----------- M     two branches of different length merged; versions will be recorded at
+        \                  /      both tips, so 'fewest separating commits' and any first-parent /
+         s1 --- s2 --- s3          generation-count shortcut disagree"""
+    m = GitModel()
+    g = lambda *a: realrun.git(root, *a)
+    g("init", "-q", "-b", "main")
+    with open(os.path.join(root, "src.txt"), "w") as f:
+        f.write("0\n")
+    with open(os.path.join(root, ".gitignore"), "w") as f:
+        f.write("cond-out\n")
+    g("add", "-A")
+    g("commit", "-q", "-m", "A")
+    n = [0]
+
+    def commit(parents, branch):
+        cid = "c%d" % n[0]
+        n[0] += 1
+        m.parents[cid] = parents
+        m.hash[cid] = g("rev-parse", "HEAD")
+        m.head = cid
+        m.branches[branch] = cid
+        return cid
+
+    m.cur_branch = "main"
+    a = commit([], "main")
+    g("checkout", "-q", "-b", "side")
+    prev = a
+    for i in range(side_len):
+        g("commit", "-q", "--allow-empty", "-m", "s%d" % i)
+        prev = commit([prev], "side")
+    side_tip = prev
+    g("checkout", "-q", "main")
+    prev = a
+    for i in range(main_len):
+        g("commit", "-q", "--allow-empty", "-m", "m%d" % i)
+        prev = commit([prev], "main")
+    main_tip = prev
+    if merge_into_side:
+        g("checkout", "-q", "side")
+        g("merge", "-q", "--no-ff", "-m", "M", "main")
+        commit([side_tip, main_tip], "side")
+        m.cur_branch = "side"
+    else:
+        g("merge", "-q", "--no-ff", "-m", "M", "side")
+        commit([main_tip, side_tip], "main")
+        m.cur_branch = "main"
+    return m, side_tip, main_tip
+
+
 def select(rows, model, head, git_mode):
     """rows: [(ts, commit_hash|None)] of one task -> selected (ts, commit) or None"""
     if not rows:
@@ -124,7 +174,10 @@ def select(rows, model, head, git_mode):
 
 def gen_case(rng):
     git_mode = rng.choice(["git"] * 8 + ["nogit", "disabled", "nocommit"])
-    return {"seed": rng.randrange(1 << 30), "git_mode": git_mode, "ncommits": rng.randint(1, 12), "nobs": rng.randint(3, 7)}
+    c = {"seed": rng.randrange(1 << 30), "git_mode": git_mode, "ncommits": rng.randint(1, 12), "nobs": rng.randint(3, 7)}
+    if git_mode == "git" and rng.random() < 0.2:
+        c.update(shape="unequal-merge", side_len=rng.randint(1, 4), main_len=rng.randint(1, 3), merge_into_side=rng.random() < 0.5)
+    return c
 
 
 def eval_case(case):
@@ -143,7 +196,11 @@ def eval_case(case):
         pr = realrun.Project(sc.root, tasks, scripts, disable_git=(gm == "disabled"))
         root = pr.root
         model = None
-        if gm in ("git", "disabled"):
+        shape_tips = None
+        if gm == "git" and case.get("shape") == "unequal-merge":
+            model, st, mt = build_unequal_merge(rng, root, case["side_len"], case["main_len"], case["merge_into_side"])
+            shape_tips = (st, mt)
+        elif gm in ("git", "disabled"):
             model = build_repo(rng, root, case["ncommits"])  # the project files are part of the first commit
         elif gm == "nocommit":
             realrun.git(root, "init", "-q", "-b", "main")
@@ -169,6 +226,14 @@ def eval_case(case):
         # ---- phase 1: record versions
         nver = rng.randint(0, 6)
         ts_base = 1000
+        if shape_tips:
+            nver = rng.randint(0, 2)
+            order = list(shape_tips)
+            rng.shuffle(order)
+            for j, c in enumerate(order):
+                for tid in ("//:e1", "//x:e2"):
+                    insert_version(tid, 500 + j, model.hash[c])
+                    log.append(["insert", tid, 500 + j, c])
         for i in range(nver):
             tid = rng.choice(["//:e1", "//:e1", "//x:e2"])
             how = rng.random()
@@ -196,7 +261,7 @@ def eval_case(case):
                 log.append(["insert", tid, ts, commit])
         # ---- phase 2: position HEAD
         if model and gm == "git":
-            pos = rng.random()
+            pos = rng.random() if not shape_tips else 1.0
             if pos < 0.3:
                 c = rng.choice(sorted(model.parents))
                 realrun.git(root, "checkout", "-q", model.hash[c])
